@@ -24,7 +24,7 @@
 (* With it TLC finds the recorded findings F5 / F10 (known_findings.json); *)
 (* with FALSE every invariant holds.                                       *)
 (***************************************************************************)
-EXTENDS Integers, Sequences, FiniteSets, TLC
+EXTENDS Integers, Sequences, FiniteSets, TLC, Json
 
 CONSTANTS
     NMsgs,        \* broker messages 1..NMsgs; message m uses packet id m
@@ -46,13 +46,15 @@ VARIABLES
     fast,     \* PUBREL fast replies (replies::_fast_replies)
     stored,   \* per message: number of times it was put into the receive channel
     faults,
-    relUnanswered   \* ghost: PUBRELs delivered to the client on the current connection and not yet answered by PUBCOMP
+    relUnanswered,  \* ghost: PUBRELs delivered to the client on the current connection and not yet answered by PUBCOMP
+    hist            \* the environment's choices so far (model-guided scenarios, tools/l3.py); hidden by VIEW NoHist
 
-vars == <<bst, up, b2c, wr, dlv, wq, waiters, fast, stored, faults, relUnanswered>>
+vars == <<bst, up, b2c, wr, dlv, wq, waiters, fast, stored, faults, relUnanswered, hist>>
+NoHist == <<bst, up, b2c, wr, dlv, wq, waiters, fast, stored, faults, relUnanswered>>
 
 Init ==
     /\ bst = [m \in Msgs |-> "new"] /\ up = TRUE /\ b2c = << >> /\ wr = << >> /\ dlv = FALSE /\ wq = << >>
-    /\ waiters = {} /\ fast = {} /\ stored = [m \in Msgs |-> 0] /\ faults = 0 /\ relUnanswered = {}
+    /\ waiters = {} /\ fast = {} /\ stored = [m \in Msgs |-> 0] /\ faults = 0 /\ relUnanswered = {} /\ hist = << >>
 
 ---------------------------------------------------------------------------
 (* client *)
@@ -82,6 +84,7 @@ ClientReads ==
                    ELSE /\ fast' = fast \cup {p.m} /\ UNCHANGED <<waiters, wr, wq>>
               /\ UNCHANGED stored
     /\ UNCHANGED <<bst, up, faults, dlv>>
+    /\ hist' = Append(hist, [op |-> "read"])
 
 \* the broker's reaction to a client packet it received
 BrokerGets(pkt, st) ==
@@ -99,6 +102,7 @@ Deliver ==
        /\ relUnanswered' = IF p.t = "PUBCOMP" THEN relUnanswered \ {p.m} ELSE relUnanswered
     /\ dlv' = TRUE
     /\ UNCHANGED <<up, wr, wq, waiters, fast, stored, faults>>
+    /\ hist' = Append(hist, [op |-> "wdeliver"])
 
 \* the write completion handler runs: the operation continues, then the next write starts
 WriteOk ==
@@ -113,6 +117,7 @@ WriteOk ==
           /\ wr' = s.wr /\ wq' = s.wq /\ fast' = s.fast
     /\ dlv' = FALSE
     /\ UNCHANGED <<bst, b2c, relUnanswered, up, faults>>
+    /\ hist' = Append(hist, [op |-> "wend"])
 
 \* the connection is lost.  The write in progress fails (delivered = whether its bytes reached the broker);
 \* everything queued and every waiter is told try_again by resend() after the reconnect.
@@ -130,6 +135,7 @@ Fault(delivered) ==
     /\ up' = FALSE /\ b2c' = << >> /\ wr' = << >> /\ dlv' = FALSE /\ wq' = << >> /\ fast' = {}
     /\ faults' = faults + 1 /\ relUnanswered' = {}
     /\ UNCHANGED stored
+    /\ hist' = Append(hist, [op |-> "fault", dlv |-> delivered])
 
 \* reconnect: Session Present 1 -> the broker retransmits what is unacknowledged, in order;
 \*            Session Present 0 -> both sides forget the exchanges in flight
@@ -147,6 +153,7 @@ Reconnect(sp) ==
               /\ bst' = [m \in Msgs |-> IF bst[m] \in {"sent", "rel"} THEN "lost" ELSE bst[m]]
               /\ waiters' = {}                       \* update_session_state(): clear_pending_pubrels()
     /\ UNCHANGED <<wr, dlv, wq, fast, stored, faults, relUnanswered>>
+    /\ hist' = Append(hist, [op |-> "reconnect", sp |-> sp])
 
 \* the broker sends the next message (in order)
 BrokerPublish(m) ==
@@ -154,6 +161,7 @@ BrokerPublish(m) ==
     /\ bst' = [bst EXCEPT ![m] = "sent"]
     /\ b2c' = Append(b2c, [t |-> "PUBLISH", m |-> m])
     /\ UNCHANGED <<up, wr, dlv, wq, waiters, fast, stored, faults, relUnanswered>>
+    /\ hist' = Append(hist, [op |-> "bpub", m |-> m])
 
 Next ==
     \/ ClientReads \/ Deliver \/ WriteOk \/ Fault(FALSE) \/ Fault(TRUE)
@@ -171,4 +179,6 @@ CompletedIsDelivered ==                                                         
     Quiet => \A m \in Msgs : bst[m] = "done" => IF QosOf[m] = 2 THEN stored[m] = 1 ELSE stored[m] >= 1
 NoPubrelUnanswered == Quiet => relUnanswered = {} /\ \A m \in Msgs : bst[m] # "rel"      \* C04_c
 NothingStuck == Quiet => \A m \in Msgs : bst[m] \in {"done", "lost"}                      \* C04_a (every PUBLISH acknowledged)
+\* model-guided scenarios: every state prints the environment history that led to it (one per state under VIEW NoHist)
+EmitScript == PrintT("SCRIPT " \o ToJson(hist))
 =============================================================================
